@@ -618,3 +618,84 @@ def vg2e(P, C):
         ok = ok and full
         det = "guard `%s`, evaluated for every axis (%s), dominates the allocation of the coefficients (%s)" % (cand["text"][:90], full, bool(pg and px and pg[0] in dom.get(px[0], ())))
     C.ob("VG-2e", "read_fits_core", "axis-product-bounded", ok, f.loc(allocs[0]), det)
+
+
+def vg2f(P, C):
+    """VG-2f/VG-2g: the first-pixel array handed to fits_read_pix is as long as the image has axes, and no longer than cfitsio handles."""
+    C.rule("VG-2f", "fits_read_pix copies one first-pixel entry per axis of the CURRENT image from the array it is handed. Where the reader "
+           "passes the address of a single `long` (the KNOTSn and EXTENTS extensions), a test of that image's axis count — the out-argument of "
+           "a fits_get_img_dim made after the move to the extension, compared with 1 — dominates the read: an extension stored as a 2-d "
+           "image otherwise makes cfitsio read past the variable", floor=2)
+    C.rule("VG-2g", "cfitsio's pixel interface addresses an image through 9-element axis arrays: a throwing guard that bounds the table's "
+           "dimension count by a constant <= 9 precedes the first pixel read of the coefficient image (a well-formed 20-dimensional file "
+           "overruns those arrays inside fits_read_pix)", floor=1)
+    f = [g for g in P.fns("read_fits_core") if g.unit == "driver"][0]
+    pos = f.node_positions()
+    dom = f.dominators()
+
+    def at(i):
+        while i >= 0 and i not in pos:
+            i = f.parent[i]
+        return pos.get(i)
+    reads = [i for i, cal in f.calls() if cal and (f.call_macro(i) or cal["name"]) in ("fits_read_pix", "ffgpxv")]
+    if len(reads) < 3:
+        raise core.AnalysisBroken("VG-2f: expected three pixel reads in the reader, found %d" % len(reads))
+    dims = []
+    for i, cal in f.calls():
+        if cal and (f.call_macro(i) or cal["name"]) in ("fits_get_img_dim", "ffgidm"):
+            a = f.strip(f.args(i)[1])
+            if f.k(a) == "UnaryOperator" and f.nodes[a].get("op") == "&" and f.k(f.strip(f.nodes[a]["ch"][0])) == "DeclRefExpr":
+                dims.append((i, f.nodes[f.strip(f.nodes[a]["ch"][0])]["decl"]["id"]))
+    moves = [i for i, cal in f.calls() if cal and (f.call_macro(i) or cal["name"]) in ("fits_movnam_hdu", "ffmnhd", "fits_movabs_hdu", "ffmahd")]
+    n_scalar = 0
+    for r in reads:
+        fp = f.strip(f.args(r)[2])
+        scalar = f.k(fp) == "UnaryOperator" and f.nodes[fp].get("op") == "&" and f.k(f.strip(f.nodes[fp]["ch"][0])) == "DeclRefExpr" and \
+            "[" not in f.nodes[f.strip(f.nodes[fp]["ch"][0])].get("t", "")
+        pr = at(r)
+        if scalar:
+            n_scalar += 1
+            ok, det = False, "no test of the extension's axis count before the read"
+            # the nearest move that precedes the read in source order, and a fits_get_img_dim between the two
+            before = [m for m in moves if f.seq(m) < f.seq(r)]
+            mv = max(before, key=f.seq) if before else None
+            for (d, vid) in dims:
+                if mv is None or not (f.seq(mv) < f.seq(d) < f.seq(r)):
+                    continue
+                for x in f.walk():
+                    n = f.nodes[x]
+                    if n["k"] == "BinaryOperator" and n.get("op") in ("==", "!=") and f.seq(d) < f.seq(x) < f.seq(r):
+                        a, b = (f.strip(y) for y in n["ch"])
+                        isv = lambda y: f.k(y) == "DeclRefExpr" and f.nodes[y]["decl"].get("id") == vid     # noqa: E731
+                        one = lambda y: f.nodes[y].get("cv", f.nodes[y].get("v")) == 1                          # noqa: E731
+                        if (isv(a) and one(b)) or (isv(b) and one(a)):
+                            px = at(x)
+                            if px and pr and (px[0] in dom.get(pr[0], ())):
+                                ok, det = True, "the axis count read by fits_get_img_dim after the move is compared with 1 (`%s`) before the read" % f.render(x)
+            C.ob("VG-2f", "read_fits_core", "single-first-pixel@%s" % f.render(f.args(r)[5])[:40], ok, f.loc(r), det if ok else
+                 "fits_read_pix is handed the address of one `long` as first-pixel array, but nothing establishes that the current image has one "
+                 "axis: for an extension stored with NAXIS = 2 cfitsio copies two entries from it")
+        else:
+            # the coefficient image: first-pixel vector of ndim entries
+            g_ok = None
+            for g in guards_of(f):
+                for x in f.walk(f.nodes[g["node"]]["cond"]):
+                    n = f.nodes[x]
+                    if n["k"] == "BinaryOperator" and n.get("op") in ("<", "<=", ">", ">="):
+                        a, b = (f.strip(y) for y in n["ch"])
+                        ta, tb = f.render(a).replace("this->", ""), f.render(b).replace("this->", "")
+                        K = None
+                        if re.match(r"^(ndim|temp_dim|\w*dim\w*)$", tb) and "cv" in f.nodes[a] and n["op"] in ("<", "<="):
+                            K = f.nodes[a]["cv"] + (1 if n["op"] == "<=" else 0) - 1 + (0 if n["op"] == "<" else 0)
+                            K = f.nodes[a]["cv"] if n["op"] == "<" else f.nodes[a]["cv"] - 1
+                        elif re.match(r"^(ndim|temp_dim|\w*dim\w*)$", ta) and "cv" in f.nodes[b] and n["op"] in (">", ">="):
+                            K = f.nodes[b]["cv"] if n["op"] == ">" else f.nodes[b]["cv"] - 1
+                        if K is not None and 1 <= K <= 9:
+                            pg = at(f.strip(f.nodes[g["node"]]["cond"]))
+                            if pg and pr and pg[0] in dom.get(pr[0], ()):
+                                g_ok = (g, K)
+            C.ob("VG-2g", "read_fits_core", "dimension-count-bounded", g_ok is not None, f.loc(r),
+                 "tables of more than %d dimensions are refused before the pixel read (`%s`)" % (g_ok[1], g_ok[0]["text"][:60]) if g_ok else
+                 "the reader accepts any NAXIS >= 1: fits_read_pix addresses the image through 9-element axis arrays, which a file with more axes overruns")
+    if n_scalar < 2:
+        raise core.AnalysisBroken("VG-2f: expected the knot and extent reads with a single first pixel, found %d" % n_scalar)
